@@ -30,8 +30,10 @@ def run_patch(patch, prop):
         env = dict(os.environ, VERIF_REPO=w)
         p = subprocess.run([str(V / "check"), prop, "quick"], cwd=str(V), env=env, capture_output=True, text=True, timeout=3600)
         viol = [l for l in p.stdout.splitlines() if l.startswith("VIOLATION")]
+        lines = p.stdout.splitlines()
+        why = [lines[i + 1].strip()[:400] for i, l in enumerate(lines[:-1]) if l.startswith("VIOLATION") and lines[i + 1].startswith("  (")]
         return {"patch": str(patch.relative_to(V)), "property": prop, "exit": p.returncode, "violations": viol[:3],
-                "concrete": any("no-failing-input-found" not in l for l in viol)}
+                "why": why[:3], "concrete": any("no-failing-input-found" not in l for l in viol)}
     finally:
         subprocess.run(["git", "-C", "/repo", "worktree", "remove", "--force", w], capture_output=True)
         key = __import__("hashlib").sha1(os.path.realpath(w).encode()).hexdigest()[:10]
